@@ -37,7 +37,7 @@ REQUIRED = dict(monitors=['chords', 'exp(-tau)', 'depth', 'depth>=bare', 'depth<
                          'early-exit-observed', 'contrib:CIA', 'contrib:Rayleigh', 'contrib:SimpleClouds',
                          'contrib:FlatMie', 'contrib:LeeMie', 'nlayers:2', 'rerun:evaluated-after-change',
                          'fault:fired:temperature', 'fault:fired:chemistry', 'fault:fired:contribution', 'fault:fired:pressure',
-                         'several:evaluation-judged', 'wn-dtype:i', 'components:judged'])
+                         'several:evaluation-judged', 'wn-dtype:i', 'components:judged', 'T-route:mixin'])
 TOL = 1e-10
 CUT = float(np.exp(-10.0))
 
@@ -273,6 +273,7 @@ def oracle(ctx, snap, spec):
 
 def observe_case(ctx, spec):
     ctx.observe('wn-dtype:' + next(iter(spec['tables'].values()))['wn'].dtype.kind)
+    ctx.observe('T-route:mixin' if spec['temperature'].get('scale') else 'T-route:plain')
     ctx.observe('method:new' if spec['new_method'] else 'method:old', 'magnitude:' + spec['magnitude'],
                 'nlayers:%d' % spec['nlayers'], 'T:' + spec['temperature']['kind'])
     for c in spec['contributions']:
